@@ -22,7 +22,7 @@ Fixpoint val_eqb (a b : val) : bool :=
   | VSym x, VSym y | VStr x, VStr y | VRaw x, VRaw y | VFn x, VFn y => String.eqb x y
   | VList xs, VList ys => list_eqb xs ys
   | VDot xs x, VDot ys y => list_eqb xs ys && val_eqb x y
-  | VClo _ _ _, VClo _ _ _ => true
+  | VClo _ _ _ _, VClo _ _ _ _ => true
   | VValues xs, VValues ys => list_eqb xs ys
   | _, _ => false
   end.
